@@ -75,6 +75,9 @@ pub static mut EXPECT_WAITABLE: u32 = 0;
 /// Set by a harness while the memory of the operation under test is alive.
 /// Registration while the memory is gone would be a dangling registration.
 pub static mut OP_ALIVE: bool = true;
+/// The callback pointer of the first registration; the operation is pinned,
+/// so every later registration must hand over the same pointer.
+pub static mut EXPECT_PTR: *mut c_void = ptr::null_mut();
 
 /// Task pointers are addresses of bytes of this array (never dereferenced by
 /// the runtime): `TOK[t][0]` is `wasip3_task::ptr` of task `t`, `TOK[t][k]`
@@ -129,6 +132,11 @@ pub unsafe extern "C" fn t_register<const T: usize>(
     check_ptr_live::<T>(p);
     assert!(OP_ALIVE, "registration made after the operation's memory was released");
     assert!(!cb_ptr.is_null());
+    if EXPECT_PTR.is_null() {
+        EXPECT_PTR = cb_ptr;
+    } else {
+        assert!(cb_ptr == EXPECT_PTR, "registered a different callback pointer for the same (pinned) operation");
+    }
     if EXPECT_WAITABLE != 0 {
         assert!(waitable == EXPECT_WAITABLE, "registered a waitable the operation does not own");
     }
@@ -253,6 +261,7 @@ pub unsafe fn stub_task_set(p: *mut wasip3_task) -> *mut wasip3_task {
 /// invoke the callback.
 pub unsafe fn deliver(t: usize, code: u32) {
     assert!(L[t].reg_set, "harness error: deliver without registration");
+    assert!(OP_ALIVE, "event delivered to an operation whose memory is gone");
     L[t].reg_set = false;
     L[t].n_delivered += 1;
     (L[t].reg_cb)(L[t].reg_ptr, code);
